@@ -972,7 +972,8 @@ def schedule_task(case, rp):
                      for i in range(nn)]
             for ranks in (1, 2, 3):
                 for cpr, gpr, lfs, rpn in ((1, 0.0, 0, None), (2, 0.0, 0, None), (1, 1.0, 0, None),
-                                           (1, 0.6, 0, None), (1, 0.0, 80, None), (1, 0.0, 0, 1)):
+                                           (1, 0.6, 0, None), (1, 0.0, 80, None), (1, 0.0, 0, 1),
+                                           (1, 1.0, 0, 1), (1, 0.0, 10, 1)):
                     for scattered in (True, False):
                         for tags, colo in (({}, {}), ({'colocate': 't'}, {'t': [10]})):
                             n += 1
